@@ -826,6 +826,23 @@ fn child_kinds() -> Vec<FTree> {
     v.push(FTree::Array(vec![vec![FTree::Num("0.1234567890123456789".into())]]));
     // all columns, absolute: both a full-column and a full-row range
     v.push(FTree::ColRange { sheet: None, a: cr(1, 1, true), b: cr(16384, 1, true) });
+    // one corner next to the host cell (relative offset +1 in the stored form), the other on the
+    // last row / column of the grid: must not be taken for a whole column / whole row
+    v.push(FTree::Range {
+        sheet: None,
+        a: CellRef { col: 1, row: HOST_ROW + 1, abs_col: false, abs_row: false },
+        b: CellRef { col: 1, row: 1_048_576, abs_col: false, abs_row: true },
+    });
+    v.push(FTree::Range {
+        sheet: None,
+        a: CellRef { col: HOST_COL + 1, row: 1, abs_col: false, abs_row: false },
+        b: CellRef { col: 16_384, row: 1, abs_col: true, abs_row: false },
+    });
+    v.push(FTree::Range {
+        sheet: None,
+        a: CellRef { col: 2, row: HOST_ROW + 1, abs_col: true, abs_row: false },
+        b: CellRef { col: 3, row: 1_048_576, abs_col: true, abs_row: false },
+    });
     // row 0 is not a row, but the lexer reads `0:0`
     v.push(FTree::RowRange { sheet: None, a: cr(1, 0, false), b: cr(1, 0, false) });
     for op in fg::BIN_OPS {
